@@ -28,8 +28,16 @@
       HD11…HD22, eliminated by the hydrogen-bond search, the survivor renamed and the two oxygens
       swapped through the temporary name `FLIP`) ends with exactly OD1, OD2, HD2 (OE1, OE2, HE2),
       everything else untouched — for every construction order and every sequence of outcomes;
+    * `stages_exact`, `stages_exact_norepair`, `stages_accounted`, `early_keeps`,
+      `stages_exact_on_data` — the COMPOSITION of the stages on one residue (Model/Stages.lean):
+      terminus patches (`apply_patch`, reference and residue side, renames included), heavy-atom
+      repair, disulfide / pKa-state patches and `remove_hydrogens`, hydrogen addition. Whatever the
+      input residue held — any subset of its atoms, any extra atoms, any order — it ends with exactly
+      the atoms of its final run-time reference, each once; a heavy atom never disappears without a
+      report. `stages_exact_on_data` discharges the data hypotheses on this run's generated
+      topology with kernel-checked tables (Proofs/StagesTable.lean).
   Not modelled: the neutral C-terminus variant of `Carboxylic` (CTR),
-  patch application, the retry order of `repair_heavy` — covered by the oracle on real runs only (final names of
+  the retry order of `repair_heavy` — covered by the oracle on real runs only (final names of
   every residue against the topology of its final state, input heavy atoms conserved unless
   reported, matched ∪ missing = all, PQR lines = matched). Partial on exactly those.
 -/
@@ -39,6 +47,9 @@ import P2P.Proofs.AtomsLemmas
 import P2P.Proofs.FFLemmas
 import P2P.Model.Carboxylic
 import P2P.Proofs.CarboxylicLemmas
+import P2P.Model.Stages
+import P2P.Proofs.StagesLemmas
+import P2P.Proofs.StagesData
 
 namespace P2P.Props.C03
 open P2P P2P.Atoms P2P.Proofs.Atoms
@@ -147,6 +158,122 @@ theorem hydrogens_only_adds (refNames : List Str) (skip ok : Str → Bool) (s : 
 theorem hydrogens_nodup (refNames : List Str) (skip ok : Str → Bool) (s : Names) (hs : s.Nodup) :
     (addHydrogens refNames skip ok s).Nodup :=
   hydrogens_nodup_core refNames skip ok s hs
+
+/-! ### composition of the stages on one residue -/
+
+section stages
+open P2P.Topology P2P.Stages
+
+/-- **Exactly the topology's atom set**, for every input: after the terminus patches (`early`),
+`repair_heavy`, any mixture of `remove_hydrogens` and hydrogen-only patches (`late`: CYX and the
+pKa states) and `add_hydrogens` with every placement succeeding, the residue's names are a
+permutation of the names of its FINAL run-time reference (pseudo-atoms N+1, C-1 aside): no atom
+missing, none twice, none invented — whatever subset of atoms, extra atoms and order the input
+had. `U` is any set of canonical names containing the reference's and the patches' atoms and none
+of the late patches' alternative names. -/
+theorem stages_exact (U : List Str) (skip ok : Str → Bool) (ref0 : ResDef) (s : Names)
+    (early late : List Stage)
+    (hearly : ∀ x ∈ early, isPatch x = true) (hlate : ∀ x ∈ late, lateOK x = true)
+    (hU0 : ∀ n ∈ ref0.names, n ∈ U)
+    (hUp : ∀ x ∈ early ++ late, ∀ p, x = Stage.patch p → ∀ a ∈ p.atoms, a.name ∈ U)
+    (halt : ∀ x ∈ late, ∀ p, x = Stage.patch p → ∀ kv ∈ p.altnames, kv.1 ∉ U)
+    (hnd0 : ref0.names.Nodup)
+    (hs1 : (run skip ok ref0 s early).names.Nodup)
+    (hs1p : ∀ n ∈ (run skip ok ref0 s early).names, isPseudo n = false)
+    (hop : OP1 ∉ (run skip ok ref0 s early).names ∧ OP2 ∉ (run skip ok ref0 s early).names)
+    (hok : ∀ n, ok n = true) (hskip : ∀ n, skip n = false) :
+    (run skip ok ref0 s (early ++ [Stage.repair] ++ late ++ [Stage.addH])).names.Perm
+      ((run skip ok ref0 s (early ++ [Stage.repair] ++ late ++ [Stage.addH])).ref.names.filter
+        (fun n => !isPseudo n)) :=
+  P2P.Proofs.Stages.stages_exact_core U skip ok ref0 s early late hearly hlate hU0 hUp halt hnd0 hs1 hs1p hop hok hskip
+
+/-- the same when `repair_heavy` does nothing (it returns at once when no heavy atom is missing
+anywhere in the structure, and then deletes nothing): if the residue holds only atoms of its
+reference and all of its heavy atoms when the late stages start, the conclusion is the same -/
+theorem stages_exact_norepair (U : List Str) (skip ok : Str → Bool) (ref0 : ResDef) (s : Names)
+    (early late : List Stage)
+    (hearly : ∀ x ∈ early, isPatch x = true) (hlate : ∀ x ∈ late, lateOK x = true)
+    (hU0 : ∀ n ∈ ref0.names, n ∈ U)
+    (hUp : ∀ x ∈ early ++ late, ∀ p, x = Stage.patch p → ∀ a ∈ p.atoms, a.name ∈ U)
+    (halt : ∀ x ∈ late, ∀ p, x = Stage.patch p → ∀ kv ∈ p.altnames, kv.1 ∉ U)
+    (hnd0 : ref0.names.Nodup)
+    (hs1 : (run skip ok ref0 s early).names.Nodup)
+    (hsub : ∀ n ∈ (run skip ok ref0 s early).names,
+      n ∈ (run skip ok ref0 s early).ref.names ∧ isPseudo n = false)
+    (hheavy : ∀ n ∈ (run skip ok ref0 s early).ref.names, isH n = false → isPseudo n = false →
+      n ∈ (run skip ok ref0 s early).names)
+    (hok : ∀ n, ok n = true) (hskip : ∀ n, skip n = false) :
+    (run skip ok ref0 s (early ++ late ++ [Stage.addH])).names.Perm
+      ((run skip ok ref0 s (early ++ late ++ [Stage.addH])).ref.names.filter
+        (fun n => !isPseudo n)) :=
+  P2P.Proofs.Stages.stages_exact_norepair_core U skip ok ref0 s early late hearly hlate hU0 hUp halt hnd0 hs1 hsub hheavy hok hskip
+
+/-- **No heavy atom vanishes silently**: a heavy atom the residue holds when repair starts is in
+the final model or was reported as deleted — whatever happens afterwards (any late stages, failed
+or skipped hydrogen placements) -/
+theorem stages_accounted (U : List Str) (skip ok : Str → Bool) (ref0 : ResDef) (s : Names)
+    (early late : List Stage)
+    (hearly : ∀ x ∈ early, isPatch x = true) (hlate : ∀ x ∈ late, lateOK x = true)
+    (hU0 : ∀ n ∈ ref0.names, n ∈ U)
+    (hUp : ∀ x ∈ early ++ late, ∀ p, x = Stage.patch p → ∀ a ∈ p.atoms, a.name ∈ U)
+    (halt : ∀ x ∈ late, ∀ p, x = Stage.patch p → ∀ kv ∈ p.altnames, kv.1 ∉ U)
+    (hop : OP1 ∉ (run skip ok ref0 s early).names ∧ OP2 ∉ (run skip ok ref0 s early).names)
+    (n : Str) (hn : n ∈ (run skip ok ref0 s early).names) (hheavy : isH n = false) :
+    n ∈ (run skip ok ref0 s (early ++ [Stage.repair] ++ late ++ [Stage.addH])).names ∨
+    n ∈ (run skip ok ref0 s (early ++ [Stage.repair] ++ late ++ [Stage.addH])).reported :=
+  P2P.Proofs.Stages.stages_accounted_core U skip ok ref0 s early late hearly hlate hU0 hUp halt hop n hn hheavy
+
+/-- the terminus patches invent nothing, and an input atom that no patch removes or renames is
+still there when repair starts -/
+theorem early_keeps (skip ok : Str → Bool) (ref0 : ResDef) (s : Names) (early : List Stage)
+    (hearly : ∀ x ∈ early, isPatch x = true) :
+    (run skip ok ref0 s early).names.length ≤ s.length ∧
+    ∀ n ∈ s, (∀ p, Stage.patch p ∈ early → n ∉ p.remove ∧ ∀ kv ∈ p.altnames, kv.1 ≠ n) →
+      n ∈ (run skip ok ref0 s early).names :=
+  P2P.Proofs.Stages.early_keeps_core skip ok ref0 s early hearly
+
+open P2P.Gen.Topology P2P.Proofs.StagesTable in
+/-- **On this run's topology** (AA.xml, NA.xml, PATCHES.xml as translated now): for every residue
+definition, any patches of the file applied before repair, and CYX / the pKa-state patches /
+`remove_hydrogens` after it, the data hypotheses of `stages_exact` hold (kernel-checked tables
+`late_patches_fine`, `residue_names_nodup`), so only the conditions on the input remain. -/
+theorem stages_exact_on_data (skip ok : Str → Bool) (r : ResDef) (hr : r ∈ residues) (s : Names)
+    (early late : List Stage)
+    (hearly : ∀ x ∈ early, ∃ p ∈ patches, x = Stage.patch p)
+    (hlate : ∀ x ∈ late, x = Stage.stripH ∨ ∃ p ∈ latePatches, x = Stage.patch p)
+    (hs1 : (run skip ok r s early).names.Nodup)
+    (hs1p : ∀ n ∈ (run skip ok r s early).names, isPseudo n = false)
+    (hop : OP1 ∉ (run skip ok r s early).names ∧ OP2 ∉ (run skip ok r s early).names)
+    (hok : ∀ n, ok n = true) (hskip : ∀ n, skip n = false) :
+    (run skip ok r s (early ++ [Stage.repair] ++ late ++ [Stage.addH])).names.Perm
+      ((run skip ok r s (early ++ [Stage.repair] ++ late ++ [Stage.addH])).ref.names.filter
+        (fun n => !isPseudo n)) :=
+  P2P.Proofs.Stages.stages_exact_on_data_core skip ok r hr s early late hearly hlate hs1 hs1p hop hok hskip
+
+open P2P.Gen.Topology P2P.Proofs.StagesTable in
+/-- every late patch the run uses exists in the file -/
+theorem late_patches_exist : latePatchNames.all (fun n => patches.any (fun p => p.name = n)) = true :=
+  late_patches_present
+
+open P2P.Gen.Topology in
+/-- non-vacuity on the generated topology: a C-terminal aspartate given with CA, N, an
+old-style OT2, an unknown atom XX and one hydrogen, protonated by the pKa route (PEPTIDE, CTERM;
+repair; strip hydrogens; ASH; add hydrogens): XX is reported, OT2 becomes OXT, and the residue ends
+with exactly the atoms of its final reference -/
+example :
+    (do
+      let r ← findRes residues (str "ASP")
+      let pe ← findPatch patches (str "PEPTIDE")
+      let ct ← findPatch patches (str "CTERM")
+      let ash ← findPatch patches (str "ASH")
+      let st := run (fun _ => false) (fun _ => true) r [str "CA", str "N", str "OT2", str "XX", str "HB2"]
+        [.patch pe, .patch ct, .repair, .stripH, .patch ash, .addH]
+      pure (st.names, st.reported)) =
+    some ([str "CA", str "N", str "OXT", str "C", str "O", str "CB", str "CG", str "OD1", str "OD2", str "H", str "HA",
+        str "HB2", str "HB3", str "HD2", str "HD1"], [str "XX"]) := by
+  decide +kernel
+
+end stages
 
 /-! ### non-vacuity -/
 example : ([str "N", str "CA", str "OD1", str "ND2"] : Names).Nodup ∧ NoTemp [str "N", str "CA", str "OD1", str "ND2"] := by
